@@ -50,7 +50,8 @@ def _setup():
 
 def closed_loop(job):
     """one closed-loop run; wiring and gains as in scripts/rdd2_sim.py (velocity mode, zero stick: hold pw_sp)"""
-    x0, mode, T = job
+    x0, mode, T = job[:3]
+    sp, psi = (job[3], job[4]) if len(job) > 3 else ([0.0, 0.0, 3.0], 0.0)
     G = _setup(); model, eqs, p = G["model"], G["eqs"], G["p"]
     xi, pi_ = model["x_index"], model["p_index"]
     f = model["f"]
@@ -70,7 +71,7 @@ def closed_loop(job):
     thrust_trim = m * g; F_max = 20
     k_p_att = np.array([5, 5, 2.0]); kp = np.array([0.3, 0.3, 0.05]); ki = np.zeros(3); kd = np.array([0.1, 0.1, 0]); f_cut = 10.0; i_max = np.zeros(3)
     i0 = np.zeros(3); e0 = np.zeros(3); de0 = np.zeros(3); z_i = 0.0
-    pw_sp = np.array([0, 0, 3.0]); vw_sp = np.zeros(3); aw_sp = np.zeros(3); qc_sp = np.array([1.0, 0, 0, 0])
+    pw_sp = np.array(sp, dtype=float); vw_sp = np.zeros(3); aw_sp = np.zeros(3); qc_sp = np.array([np.cos(psi / 2), 0, 0, np.sin(psi / 2)])
     u = np.zeros(4); log = []
     wmax = np.sqrt(F_max / CT)
     try:
@@ -95,7 +96,7 @@ def closed_loop(job):
             u = np.array(uu).ravel()
             if not np.all(np.isfinite(u)):
                 return {"nan": True, "t": step * dt}
-            log.append((np.linalg.norm(pw - pw_sp), 2 * np.arccos(min(1, abs(q[0]) / np.linalg.norm(q))), np.linalg.norm(om), u.min(), u.max(), pw[2]))
+            log.append((np.linalg.norm(pw - pw_sp), float(np.arccos(np.clip(1 - 2 * (q[1] ** 2 + q[2] ** 2) / np.dot(q, q), -1, 1))), np.linalg.norm(om), u.min(), u.max(), pw[2]))
     except Exception as e:   # noqa: BLE001
         return {"exception": repr(e)[:200]}
     L = np.array(log); k = int(0.9 * len(L))
@@ -135,19 +136,25 @@ def search(ctx):
     T = 30.0 if big else 25.0      # the log-linear outer loop is the slower one: ~0.1 m left after 15 s from 3 m away
     CT = pd["CT"]; w_hover = float(np.sqrt(pd["m"] * pd["g"] / 4 / CT))
     for i in range(n):
-        ax = rng.standard_normal(3); ax /= np.linalg.norm(ax); ang = rng.uniform(0, np.deg2rad(60))
-        q = np.concatenate([[np.cos(ang / 2)], np.sin(ang / 2) * ax])
-        x0 = {"position_op_w_0": float(rng.uniform(-3, 3)), "position_op_w_1": float(rng.uniform(-3, 3)), "position_op_w_2": float(3 + rng.uniform(-2, 3))}
+        # commanded hover position anywhere (not only near the world origin) and any commanded heading; the vehicle starts within
+        # metres of it, tilted by up to 60 degrees about a horizontal axis, at a yaw within 60 degrees of the commanded heading
+        sp = [float(rng.uniform(-40, 40)), float(rng.uniform(-40, 40)), float(rng.uniform(3, 30))] if i % 3 else [0.0, 0.0, 3.0]
+        psi = float(rng.uniform(-np.pi, np.pi)) if i % 4 else 0.0
+        a_h = rng.uniform(0, 2 * np.pi); ang = rng.uniform(0, np.deg2rad(60)); yaw0 = psi + rng.uniform(-1.0, 1.0)
+        qt = np.array([np.cos(ang / 2), np.sin(ang / 2) * np.cos(a_h), np.sin(ang / 2) * np.sin(a_h), 0.0])
+        qy = np.array([np.cos(yaw0 / 2), 0, 0, np.sin(yaw0 / 2)])
+        q = np.array([qy[0] * qt[0] - qy[3] * qt[3], qy[0] * qt[1] - qy[3] * qt[2], qy[0] * qt[2] + qy[3] * qt[1], qy[0] * qt[3] + qy[3] * qt[0]])
+        x0 = {"position_op_w_0": sp[0] + float(rng.uniform(-3, 3)), "position_op_w_1": sp[1] + float(rng.uniform(-3, 3)), "position_op_w_2": sp[2] + float(rng.uniform(-1, 3))}
         for k in range(4): x0["quaternion_wb_%d" % k] = float(q[k])
         for k in range(3):
             x0["velocity_w_p_b_%d" % k] = float(rng.uniform(-1, 1)); x0["omega_wb_b_%d" % k] = float(rng.uniform(-1, 1))
         for k in range(4): x0["omega_motor_%d" % k] = w_hover * float(rng.choice([0, 1]))
-        jobs.append((x0, ["mellinger", "loglinear"][i % 2], T))
+        jobs.append((x0, ["mellinger", "loglinear"][i % 2], T, sp, psi))
     with mp.get_context("fork").Pool(min(16, n)) as pool:
         res = pool.map(closed_loop, jobs)
     worst = {"late_pos_err": 0.0, "late_tilt": 0.0, "late_rate": 0.0}
-    for (x0, mode, _), o in zip(jobs, res):
-        inp = {"x0": x0, "mode": mode, "T": T, "set_point": [0, 0, 3.0]}
+    for (x0, mode, _, sp, psi), o in zip(jobs, res):
+        inp = {"x0": x0, "mode": mode, "T": T, "set_point": sp, "heading": psi}
         if "exception" in o:
             report("loop:exception", "a cascade function raised in the closed loop: " + o["exception"], inp); continue
         if o["nan"]:
@@ -172,7 +179,7 @@ def replay(payload):
     for v in payload.get("violations", []):
         inp = v.get("inputs", {})
         if "x0" in inp:
-            o = closed_loop((inp["x0"], inp["mode"], inp.get("T", 15.0)))
+            o = closed_loop((inp["x0"], inp["mode"], inp.get("T", 25.0), inp.get("set_point", [0, 0, 3.0]), inp.get("heading", 0.0)))
             print("replayed closed loop:", o)
             bad = bad or o.get("nan", False) or o.get("late_pos_err", 1) > 0.10
     return not bad
